@@ -68,7 +68,7 @@ func run(c *vf.Ctx) {
 	// ---------------- (b) storage proofs ----------------
 	proofs(c)
 	c.RequireFeature("feature:v1_fc_proof", "feature:v1_fc_expire", "feature:v1_fc_revise", "feature:v2_fc_renew", "feature:v2_fc_proof", "feature:v2_fc_expire", "feature:v2_fc_revise",
-		"rule_attack_rejected", "rule_control_accepted", "proof_honest_accepted", "proof_corrupt_rejected", "proof_era1", "proof_era2", "proof_era3", "proof_v2")
+		"rule_attack_rejected", "rule_control_accepted", "proof_honest_accepted", "proof_pair_accepted", "proof_corrupt_rejected", "proof_era1", "proof_era2", "proof_era3", "proof_v2")
 	c.Sample(map[string]any{"part": "b", "era": "v1 era 3", "filesize": 129, "challenge_index": 2, "honest": "accepted", "other_leaf_1": "rejected"})
 }
 
@@ -322,7 +322,78 @@ func proofs(c *vf.Ctx) {
 			c.NotExhaustive(fmt.Sprintf("storage proofs: not every challenge index reached for F=%d (%d of %d)", j.F, len(covered), want))
 		}
 		c.Count("proof_"+j.era, 1)
+		// two proofs in one transaction: this job's size paired with every size of a small set, several salts
+		if j.version == "v1" && j.F <= 200 {
+			for _, FB := range []uint64{36, 64, 100, 129} {
+				for salt := 0; salt < vf.Pick(c, 4, 12); salt++ {
+					pairProofs(c, base, j.era, j.F, FB, salt)
+				}
+			}
+		}
 	})
+}
+
+// pairProofs: ONE v1 transaction carrying the honest storage proofs of TWO different contracts, in both orders (state
+// shared between the proofs of a transaction - a scratch buffer, a cached window ID - shows up only here).
+func pairProofs(c *vf.Ctx, base *chain.World, era string, FA, FB uint64, salt int) {
+	w := base.Clone()
+	w.Nonce = uint64(5000 + salt)
+	pc := proofCase{Version: "v1-pair", Network: w.Spec.Name, Era: era, Filesize: FA*100000 + FB, Salt: salt, Seed: w.Keys.Seed}
+	bc := w.NewBlockCtx()
+	if !chain.V1FormSalted(2, 2, FA, salt).Do(bc) || !chain.V1FormSalted(2, 2, FB, salt+1000).Do(bc) {
+		return
+	}
+	b, bs := w.BuildBlock(bc.V1, bc.V2, chain.BlockOpts{})
+	if err, p := w.Apply(b, bs); err != nil || p != nil {
+		c.HarnessError("pair formation block rejected: %v %v", err, p)
+		return
+	}
+	b, bs = w.BuildBlock(nil, nil, chain.BlockOpts{})
+	if err, p := w.Apply(b, bs); err != nil || p != nil {
+		c.HarnessError("pair window block rejected: %v %v", err, p)
+		return
+	}
+	var fces []types.FileContractElement
+	for _, id := range chain.SortedIDs(w.Store.FC) {
+		fces = append(fces, w.Store.FC[types.FileContractID(id)])
+	}
+	if len(fces) != 2 {
+		return
+	}
+	type one struct {
+		sp    types.StorageProof
+		quirk bool
+	}
+	mk := func(fce types.FileContractElement) one {
+		fc := fce.FileContract
+		windowID := w.Hist[fc.WindowStart-1].B.ID()
+		idx := w.CS.StorageProofLeafIndex(fc.Filesize, windowID, fce.ID)
+		leaf, proof := spec.FileProof(spec.FileData(int(fc.Filesize), byte(fc.Filesize%251)), int(idx))
+		n := numLeaves(fc.Filesize)
+		q := (era == "era2" && fc.Filesize > 0 && fc.Filesize%64 == 0 && idx == n-1) || (era != "era3" && fc.Filesize == 0)
+		return one{types.StorageProof{ParentID: fce.ID, Leaf: leaf, Proof: proof}, q}
+	}
+	a, bb := mk(fces[0]), mk(fces[1])
+	if a.quirk || bb.quirk {
+		c.Count("proof_legacy_quirk_unspecified", 1)
+		return
+	}
+	for _, order := range [][2]one{{a, bb}, {bb, a}} {
+		t := types.Transaction{StorageProofs: []types.StorageProof{order[0].sp, order[1].sp}}
+		u := chain.Use{Name: "v1proof-pair", V1: &t, Resolves: true, SuppFC: []types.FileContractElement{fces[0], fces[1]}}
+		blk, sup := w.BlockOfUses(u)
+		err, p := w.Clone().Apply(blk, sup)
+		c.Count("evaluations", 1)
+		c.Count("transitions", 1)
+		c.Distinct("pair", era, FA, FB, salt, order[0].sp.ParentID == a.sp.ParentID)
+		if p != nil {
+			c.Violate("C07|storage-proof|pair|"+p.Sig, p.Desc, pc)
+		} else if err != nil {
+			c.Violate("C07|storage-proof|honest-rejected|two proofs in one transaction|"+era, fmt.Sprintf("[v1 %s, file sizes %d and %d, salt %d] one transaction with the honest proofs of two contracts rejected: %v", era, FA, FB, salt, err), pc)
+		} else {
+			c.Count("proof_pair_accepted", 1)
+		}
+	}
 }
 
 // oneProof forms a contract (salted), mines the window block, and runs the proof menu. Returns the challenged index.
@@ -532,6 +603,22 @@ func oneProof(c *vf.Ctx, base *chain.World, version, era string, F uint64, salt 
 
 func replay(c *vf.Ctx, raw json.RawMessage) {
 	var pc proofCase
+	if err := json.Unmarshal(raw, &pc); err == nil && pc.Version == "v1-pair" {
+		keys := chain.NewKeys(pc.Seed)
+		base, p := chain.NewWorld(chain.Spec(pc.Network), keys, chain.DefaultAlloc(keys), chain.Options{CheckLedger: true})
+		if p != nil {
+			c.HarnessError("genesis: %v", p)
+			return
+		}
+		formAt := map[string]uint64{"era1": 2, "era2": 7, "era3": 11}[pc.Era]
+		for base.ChildHeight() < formAt {
+			b, bs := base.BuildBlock(nil, nil, chain.BlockOpts{})
+			base.Apply(b, bs)
+		}
+		c.Count("states", 1)
+		pairProofs(c, base, pc.Era, pc.Filesize/100000, pc.Filesize%100000, pc.Salt)
+		return
+	}
 	if err := json.Unmarshal(raw, &pc); err == nil && pc.Version != "" {
 		keys := chain.NewKeys(pc.Seed)
 		base, p := chain.NewWorld(chain.Spec(pc.Network), keys, chain.DefaultAlloc(keys), chain.Options{CheckLedger: true})
